@@ -66,6 +66,7 @@ public:
              )
     {
         // Fire exception in case of error.
+        this->get()->client_data = static_cast< reader_backend< Device, jpeg_tag >* >( this ); // the reader may have been copied since its constructor ran
         if( setjmp( this->_mark )) { this->raise_error(); }
 
         // read data
@@ -76,6 +77,7 @@ public:
     void skip( byte_t* dst, int )
     {
         // Fire exception in case of error.
+        this->get()->client_data = static_cast< reader_backend< Device, jpeg_tag >* >( this ); // the reader may have been copied since its constructor ran
         if( setjmp( this->_mark )) { this->raise_error(); }
 
         // read data
